@@ -18,6 +18,7 @@ import io
 import zlib
 
 import zonelib as Z
+import common
 from common import REPO, InfraError, guard, hexs, model_eval
 from zonelib import MAXI, MINI, NPD
 
@@ -806,6 +807,33 @@ def source_ops(ctx):
     return pay, mut
 
 
+
+def _fresh_child(args, optimize=False):
+    import json
+    import os
+    import subprocess
+    import sys
+    here = os.path.dirname(os.path.abspath(__file__))
+    cmd = [sys.executable] + (["-O"] if optimize else []) + [os.path.join(here, "fresh_child.py")] + list(args)
+    p = subprocess.run(cmd, capture_output=True, text=True, timeout=300, env=dict(os.environ, PYODA_REPO=str(common.REPO)))
+    if p.returncode != 0:
+        return {"__error__": p.stderr[-400:]}
+    return json.loads(p.stdout)
+
+
+def provider_optimize_case(_):
+    """the built-in provider must say the same under `python -O` (assert statements removed) as in the default mode"""
+    a, b = _fresh_child(["provider"], optimize=True), _fresh_child(["provider"])
+    if "__error__" in b:
+        raise RuntimeError(b["__error__"])
+    if "__error__" in a:
+        return {"key": "provider-differs-under-python-O", "what": "under python -O the provider probe fails: " + a["__error__"][-200:]}
+    for k in b:
+        if a.get(k) != b[k]:
+            return {"key": "provider-differs-under-python-O", "what": f"{k}: under python -O the built-in provider answers {str(a.get(k))[:200]}; in the default mode {str(b[k])[:200]}"}
+    return None
+
+
 def fixed_id_culture_cases(ctx):
     """(current culture name, offsets): cultures of every time-separator class; '' = invariant"""
     try:
@@ -956,6 +984,7 @@ def run(ctx):
                 law_cases.append((f"{t[1]} edited ({MUT_KIND[o]})", src))
     ctx.check_cases("derived-maps.laws", law_cases, derived_maps_case, exhaustive=False)
     ctx.check_cases("fixed-ids.made-by-the-library-resolve", fixed_id_culture_cases(ctx), fixed_id_culture_case)
+    ctx.check_cases("provider.python-O", ["-O"], provider_optimize_case)
 
 
 def replay_op(op, failure):
